@@ -80,6 +80,33 @@ def run(ck):
             z = gdoc.sentence_without(rng, pp, budget=rng.choice([4, 6, 8]))
             if z is not None:
                 seqs.append(("zero-plus", z))
+    # every statement form directly inside every container form, with and without braces, in the then and in the else
+    # branch, one and two levels deep (`else if`, `foreach .. in let .. in def`, a class inside a defset inside an if, ...)
+    stmt_nts = ["Assert", "Class", "Def", "Defm", "Defset", "Defvar", "Dump", "Foreach", "If", "Let", "MultiClass", "Include"]
+    mc_nts = ["Def", "Defm", "Defvar", "Foreach", "If", "Let", "Assert", "Dump"]
+
+    def wrap(kind, inner, braces, other=None):
+        body = (["LBrace"] + inner + ["RBrace"]) if braces else inner
+        if kind == "then":
+            return ["If", "IntVal", "Then"] + body
+        if kind == "else":
+            return ["If", "IntVal", "Then"] + (other or ["Def", "Id", "Semi"]) + ["ElseKw"] + body
+        if kind == "foreach":
+            return ["Foreach", "Id", "Equal", "LSquare", "IntVal", "RSquare", "In"] + body
+        if kind == "let":
+            return ["Let", "Id", "Equal", "IntVal", "In"] + body
+        if kind == "defset":
+            return ["Defset", "Int", "Id", "Equal", "LBrace"] + inner + ["RBrace"]
+        return ["MultiClass", "Id", "LBrace"] + inner + ["RBrace"]
+    for _ in range(1 if quick else 6):
+        for kind in ["then", "else", "foreach", "let", "defset", "multiclass"]:
+            for nt in (mc_nts if kind == "multiclass" else stmt_nts):
+                inner = gdoc.sentence(rng, nt, budget=rng.choice([2, 3, 4]))
+                for braces in (False, True):
+                    seqs.append(("nest", wrap(kind, inner, braces)))
+                    if kind != "multiclass":
+                        k2 = rng.choice(["then", "else", "foreach", "let", "defset"])
+                        seqs.append(("nest", wrap(k2, wrap(kind, inner, braces), rng.random() < 0.5, other=gdoc.sentence(rng, "If", budget=3) if rng.random() < 0.3 else None)))
     base = [s for _, s in seqs if 2 <= len(s) <= 14]
     rng.shuffle(base)
     vocab = sorted({k for _, s in seqs for k in s})
